@@ -72,7 +72,20 @@ def add_canary(text, meta, only=None):
             continue
         bpos = toks[fn["body"]].pos
         if only is None:
-            seg = seg[:bpos + 1] + " proof { assert(false); } /*@CANARY:%s*/ " % fid + seg[bpos + 1:]
+            # Verus header statements (hide/reveal/broadcast use) must stay first in the body
+            k = fn["body"] + 1
+            ins = bpos + 1
+            while k < len(toks):
+                while k < len(toks) and toks[k].kind in ("ws", "comment", "doc"):
+                    k += 1
+                if k < len(toks) and toks[k].kind == "ident" and toks[k].text in ("hide", "reveal", "reveal_with_fuel", "broadcast"):
+                    while k < len(toks) and toks[k].text != ";":
+                        k += 1
+                    ins = toks[k].pos + 1
+                    k += 1
+                    continue
+                break
+            seg = seg[:ins] + " proof { assert(false); } /*@CANARY:%s*/ " % fid + seg[ins:]
         else:
             head = seg[:bpos]
             has_ens = re.search(r"\bensures\b", head) is not None
